@@ -410,6 +410,15 @@ def _extension_layout(i, out):
             for el, attr, det in I.compare(exp_all, I.normalise(r["data"]))[:4]:
                 out["violations"].append(_v("%s|%s|%s" % (el, _attr_sig(attr), label), "introspection", (),
                                             "extension layout %s [%s]: %s %s: %r\n%s" % (label, way, el, attr, det, sdl), schema, way, True))
+            # __typename is the name of the concrete object type, wherever the type's fields were declared (definition or extension)
+            root = {"node": {"_typename": "Other", "id": "1"}, "thing": {"_typename": "Other", "n": 1}}
+            rt = harness.execute(engine, "{ __typename node { __typename id } thing { __typename ... on Other { __typename name } } }",
+                                 Scenario(root=root))
+            out["counts"]["evaluations"] += 1
+            want = {"__typename": "Query", "node": {"__typename": "Other", "id": "1"}, "thing": {"__typename": "Other", "name": None}}
+            if rt.get("errors") or rt.get("data") != want:
+                out["violations"].append(_v("object|__typename|%s" % label, "introspection", (),
+                                            "extension layout %s [%s]: __typename query -> %r, expected %r\n%s" % (label, way, rt, want, sdl), schema, way, True))
         finally:
             shutil.rmtree(tmp, ignore_errors=True)
             harness.forget(name)
